@@ -163,6 +163,14 @@ func Load(repo string) (*Ctx, error) {
 	return c, nil
 }
 
+// RelOf returns the repository-relative path of a package ("" for foreign packages).
+func (c *Ctx) RelOf(p *types.Package) string {
+	if p == nil || !strings.HasPrefix(p.Path(), ModPath) {
+		return ""
+	}
+	return strings.TrimPrefix(strings.TrimPrefix(p.Path(), ModPath), "/")
+}
+
 // VarInit returns the initialiser of a repository package-level variable.
 func (c *Ctx) VarInit(v *types.Var) (ast.Expr, *packages.Package) {
 	return c.varInits[v], c.varPkg[v]
